@@ -408,6 +408,158 @@ fn subtags_match<P: PartialEq>(
 ]
 
 
+
+LIPARSER = "unic-langid-impl/src/parser/mod.rs"
+LOCPARSER = "unic-locale-impl/src/parser/mod.rs"
+LIKELY = "unic-langid-impl/src/likelysubtags/mod.rs"
+
+# ---- the imperative subset (loops, mutation, iterator threading, Display, mutators, the likely-subtags cascade).
+#      kind "rewrite" here is only recorded: the loop proofs mention the shape of the loop, so a harmless rewrite may end
+#      `unproved` (not an alarm, DESIGN.md section 10); kind "break" must not stay `proved`.
+EXPERIMENTS += [
+    ("L01", "rewrite", "langid parser loop: two independent assignments swapped (`position = 2; script = Some(s);`)",
+     LIPARSER, "                script = Some(s);\n                position = 2;", "                position = 2;\n                script = Some(s);",
+     ["LangId.parseIter"]),
+    ("L02", "rewrite", "-u- parser: sort/dedup of the attributes moved before the final keyword flush",
+     UNICODE,
+     """        if let Some(current_keyword) = current_keyword {
+            uext.keywords.insert(current_keyword, current_types);
+        }
+
+        uext.attributes.sort_unstable();
+        uext.attributes.dedup();
+""",
+     """        uext.attributes.sort_unstable();
+        uext.attributes.dedup();
+
+        if let Some(current_keyword) = current_keyword {
+            uext.keywords.insert(current_keyword, current_types);
+        }
+""",
+     ["UExt.parseIter"]),
+    ("L03", "rewrite", "-x- parser: the pushed value bound by a `let` first",
+     PRIVATE, "            pext.0.push(parse_value(subtag)?);", "            let v = parse_value(subtag)?;\n            pext.0.push(v);",
+     ["PExt.parseIter"]),
+    ("L04", "rewrite", "ExtensionsMap loop: `subtag.len() > 1` written `1 < subtag.len()`",
+     EXTMOD, "            if subtag.len() > 1 {", "            if 1 < subtag.len() {", ["ExtMap.parseIter"]),
+    ("L05", "rewrite", "Display for UnicodeExtensionList: `f.write_str(\"-u\")?` written `write!(f, \"-u\")?`",
+     UNICODE, '        f.write_str("-u")?;', '        write!(f, "-u")?;', ["UExt.fmt"]),
+    ("L06", "rewrite", "LanguageIdentifier::from_parts: the two branches of the `if` swapped (positive condition)",
+     LIB,
+     """        let variants = if !variants.is_empty() {
+            let mut v = variants.to_vec();
+            v.sort_unstable();
+            v.dedup();
+            Some(v.into_boxed_slice())
+        } else {
+            None
+        };""",
+     """        let variants = if variants.is_empty() {
+            None
+        } else {
+            let mut v = variants.to_vec();
+            v.sort_unstable();
+            v.dedup();
+            Some(v.into_boxed_slice())
+        };""",
+     ["LangId.fromParts"]),
+    ("L07", "rewrite", "remove_keyword: the parsed key bound by a `let` first",
+     UNICODE, "        Ok(self.keywords.remove(&parse_key(key.as_ref())?).is_some())",
+     "        let k = parse_key(key.as_ref())?;\n        Ok(self.keywords.remove(&k).is_some())", ["UExt.removeKeyword"]),
+    ("L08", "rewrite", "likelysubtags::minimize: the first trial with an early `continue`-free nested `if` merged (`if let .. { if .. }` -> `if maximize(..) == Some(max_langid)`)",
+     LIKELY,
+     """    if let Some(trial) = maximize(max_langid.0, None, None) {
+        if trial == max_langid {
+            return Some((max_langid.0, None, None));
+        }
+    }
+""",
+     """    if maximize(max_langid.0, None, None) == Some(max_langid) {
+        return Some((max_langid.0, None, None));
+    }
+""",
+     ["Likely.minimize"]),
+    # ---- behaviour-changing
+    ("K01", "break", "langid parser loop: after a region at position 1 the position becomes 2 (a second region is accepted)",
+     LIPARSER, "                region = Some(s);\n                position = 3;\n            } else if let Ok(v) = subtags::Variant::from_bytes(subtag) {\n                variants.push(v);\n                position = 3;\n            } else {\n                break;\n            }\n        } else if position == 2 {",
+     "                region = Some(s);\n                position = 2;\n            } else if let Ok(v) = subtags::Variant::from_bytes(subtag) {\n                variants.push(v);\n                position = 3;\n            } else {\n                break;\n            }\n        } else if position == 2 {",
+     ["LangId.parseIter"]),
+    ("K02", "break", "-u- parser: `current_types = vec![];` dropped (types leak into the next keyword)",
+     UNICODE, "                    uext.keywords.insert(current_keyword, current_types);\n                    current_types = vec![];",
+     "                    uext.keywords.insert(current_keyword, current_types.clone());", ["UExt.parseIter"]),
+    ("K03", "break", "-t- parser: the singleton test `slen == 1` becomes `slen == 0`",
+     TRANSFORM, "            } else if slen == 1 {", "            } else if slen == 0 {", ["TExt.parseIter"]),
+    ("K04", "break", "ExtensionsMap loop: `seen_unicode = true;` dropped (a repeated -u- is accepted)",
+     EXTMOD, "                    seen_unicode = true;\n", "", ["ExtMap.parseIter"]),
+    ("K05", "break", "-x- parser: the final `sort_unstable()` dropped",
+     PRIVATE, "        pext.0.sort_unstable();\n\n        Ok(pext)", "        Ok(pext)", ["PExt.parseIter"]),
+    ("K06", "break", "Display for TransformExtensionList writes `-T`",
+     TRANSFORM, '        f.write_str("-t")?;', '        f.write_str("-T")?;', ["TExt.fmt"]),
+    ("K07", "break", "remove_tag uses `swap_remove`",
+     PRIVATE, "                self.0.remove(idx);", "                self.0.swap_remove(idx);", ["PExt.removeTag"]),
+    ("K08", "break", "remove_keyword reports `.is_none()`",
+     UNICODE, "        Ok(self.keywords.remove(&parse_key(key.as_ref())?).is_some())",
+     "        Ok(self.keywords.remove(&parse_key(key.as_ref())?).is_none())", ["UExt.removeKeyword"]),
+    # (first classified as a breaking edit; it is not: with language, script and region all present `maximize` returns early, so
+    #  the two look-ups are never both applicable — the theorem rightly still proves)
+    ("K09", "rewrite", "likelysubtags::maximize: the language+script table is consulted before the language+region table (never both applicable)",
+     LIKELY,
+     """        if let Some(r) = region {
+            let result = tables::LANG_REGION
+                .binary_search_by_key(&(&l, &r.into()), |(key_l, key_r, _)| (key_l, key_r))
+                .ok();
+            if let Some(r) = result {
+                // safe because all table entries are well formed.
+                return unsafe { lang_from_parts(tables::LANG_REGION[r].2, None, None, None) };
+            }
+        }
+
+        if let Some(s) = script {
+            let result = tables::LANG_SCRIPT
+                .binary_search_by_key(&(&l, &s.into()), |(key_l, key_s, _)| (key_l, key_s))
+                .ok();
+            if let Some(r) = result {
+                // safe because all table entries are well formed.
+                return unsafe { lang_from_parts(tables::LANG_SCRIPT[r].2, None, None, None) };
+            }
+        }
+""",
+     """        if let Some(s) = script {
+            let result = tables::LANG_SCRIPT
+                .binary_search_by_key(&(&l, &s.into()), |(key_l, key_s, _)| (key_l, key_s))
+                .ok();
+            if let Some(r) = result {
+                // safe because all table entries are well formed.
+                return unsafe { lang_from_parts(tables::LANG_SCRIPT[r].2, None, None, None) };
+            }
+        }
+
+        if let Some(r) = region {
+            let result = tables::LANG_REGION
+                .binary_search_by_key(&(&l, &r.into()), |(key_l, key_r, _)| (key_l, key_r))
+                .ok();
+            if let Some(r) = result {
+                // safe because all table entries are well formed.
+                return unsafe { lang_from_parts(tables::LANG_REGION[r].2, None, None, None) };
+            }
+        }
+""",
+     ["Likely.maximize"]),
+    ("K10", "break", "likelysubtags::minimize: the language+script trial before the language+region trial",
+     LIKELY,
+     "    if max_langid.2.is_some() {\n        if let Some(trial) = maximize(max_langid.0, None, max_langid.2) {\n            if trial == max_langid {\n                return Some((max_langid.0, None, max_langid.2));\n            }\n        }\n    }\n\n    if max_langid.1.is_some() {\n        if let Some(trial) = maximize(max_langid.0, max_langid.1, None) {\n            if trial == max_langid {\n                return Some((max_langid.0, max_langid.1, None));\n            }\n        }\n    }",
+     "    if max_langid.1.is_some() {\n        if let Some(trial) = maximize(max_langid.0, max_langid.1, None) {\n            if trial == max_langid {\n                return Some((max_langid.0, max_langid.1, None));\n            }\n        }\n    }\n\n    if max_langid.2.is_some() {\n        if let Some(trial) = maximize(max_langid.0, None, max_langid.2) {\n            if trial == max_langid {\n                return Some((max_langid.0, None, max_langid.2));\n            }\n        }\n    }",
+     ["Likely.minimize"]),
+    ("K11", "break", "parse_locale passes `allow_extension = false` to the language-identifier parser",
+     LOCPARSER, "LanguageIdentifier::try_from_iter(&mut iter, true)", "LanguageIdentifier::try_from_iter(&mut iter, false)", ["Locale.parse"]),
+    ("K12", "break", "character_direction: the RTL script table is consulted for the LTR answer",
+     LIB,
+     "                if layout_table::SCRIPTS_CHARACTER_DIRECTION_LTR.contains(&script.into()) =>\n            {\n                CharacterDirection::LTR",
+     "                if layout_table::SCRIPTS_CHARACTER_DIRECTION_RTL.contains(&script.into()) =>\n            {\n                CharacterDirection::LTR",
+     ["LangId.direction"]),
+]
+
+
 def fresh_copy(repo, dst):
     if os.path.exists(dst):
         shutil.rmtree(dst)
